@@ -50,7 +50,7 @@ def ob_query_result(p0: bool, k0: int, t0: int, g0: int, h0: int, p1: bool, k1: 
     pre: (since is None and until is None) or (SHAPE == 1 and since is None) or (THOROUGH and SHAPE == 0 and (since is None or until is None))
     pre: SHAPE != 2 or (until is None and h0 < 2 and g1 < 3 and (not SPLIT_TWO or (g0 in (1, 2) and g1 in (1, 3) and fv1 == 0)))
     pre: SHAPE != 2 or two == SPLIT_TWO
-    pre: SHAPE != 3 or (g0 < 3 and g1 < 2 and fv1 < 2 and (limit == 3 or THOROUGH))
+    pre: SHAPE != 3 or (g0 < 3 and g1 < 2 and fv1 < 2 and (limit == 3 or (THOROUGH and limit == 1)))
     pre: THOROUGH or SHAPE != 3 or (until is None and not p0 and not p1)
     post: _.startswith("ok")
     """
